@@ -544,6 +544,20 @@ def run_c08prog(name, chosen_t, mappable):
                     compared += 1
                     if norm(snapshot.snap(p1, False)) != norm(snapshot.snap(p2, False)):
                         out.append((f"C04:decoded-build-differs:partial-mapping:{codec}:c08-{name}", f"{chosen}, {len(pq['qubits'])} ids mapped"))
+                    # ... and the sequence built on the smaller register is itself exported and decoded
+                    try:
+                        pdoc = p1.to_abstract_repr() if codec == "abstract" else p1._serialize()
+                        p3 = Sequence.from_abstract_repr(pdoc) if codec == "abstract" else Sequence._deserialize(pdoc)
+                        sp1, sp3 = snapshot.snap(p1, False), snapshot.snap(p3, False)
+                        for sx in (sp1, sp3):  # a built sequence keeps (unobservable) phase-reference entries of the ids that were not mapped
+                            for basis_ in sx.basis_ref:
+                                sx.basis_ref[basis_] = {q: v for q, v in sx.basis_ref[basis_].items() if q in pq["qubits"]}
+                        if norm(sp3) != norm(sp1):
+                            out.append((f"C04:decoded-built-sequence-differs:partial-mapping:{codec}:c08-{name}", f"{chosen}, {len(pq['qubits'])} ids mapped"))
+                    except Exception as e:
+                        if "No abstract representation for" not in str(e) and "only supported for the 'PchipInterpolator'" not in str(e):
+                            out.append((f"C04:built-sequence-roundtrip-raises:partial-mapping:{codec}:c08-{name}:{type(e).__name__}",
+                                        f"{chosen}, {len(pq['qubits'])} of {len(w.qids)} ids mapped: {e}"[:220]))
                 try:
                     b1 = tmpl.build(**vals, **qmap)
                 except Exception:
